@@ -32,7 +32,7 @@ func (quiet) Printf(format string, v ...interface{})       {}
 func main() {
 	cfg = vlib.ParseFlags()
 	r := cfg.Rng
-	sh := vlib.NewShards(cfg.Out, "C11", "From Emitter Require Import Lib.Base Model.MsgCodec Model.Channel Model.Cipher Model.Key Check.C11.", "case", "check", 60)
+	sh := vlib.NewShards(cfg.Out, "C11", "From Emitter Require Import Lib.Base Model.MsgCodec Model.Channel Model.Cipher Model.Key Check.C11.", "case", "check", 120)
 
 	channels := []string{"a/", "a/b/", "a/b/c/", "a/+/c/", "+/b/", "a/#/", "#/", "a/b/#/", "a", "a/b", "", "/", "a b/", "a//b/", "a/b#/", "x#/", "a/#b/", "a/b+/", "a/+b/", "#a/", "a/b/#", "a/#/#/", "users/bob#/", "a/b/c/d/e/f/g/h/i/j/k/l/m/n/o/p/q/r/s/t/u/v/w/x/", "x/y/"}
 	types := []string{"r", "w", "rw", "rwslp", "rwslpex", "e", "re", "x", "", "zzz", "rwq", "slp", "rwe", "p"}
@@ -96,10 +96,27 @@ func main() {
 			return k, enc, name
 		}
 
+		// a pool of parent keys that are presented again and again (a key string is long-lived)
+		type par struct {
+			k    security.Key
+			enc  string
+			name string
+			kind int
+		}
+		var pool []par
+		for _, kind := range []int{0, 0, 1, 1, 1, 2, 3, 4, 5, 6, 7} {
+			k, e, nme := mkParent(kind)
+			pool = append(pool, par{k, e, nme, kind})
+		}
 		n := 250 * cfg.Mult
 		for i := 0; i < n; i++ {
-			kind := []int{0, 0, 0, 1, 1, 1, 2, 3, 4, 5, 6, 7}[r.Intn(12)]
-			parent, penc, pname := mkParent(kind)
+			pp := pool[r.Intn(len(pool))]
+			kind := pp.kind
+			parent, penc, pname := pp.k, pp.enc, pp.name
+			if r.Intn(5) == 0 {
+				kind = []int{0, 0, 0, 1, 1, 1, 2, 3, 4, 5, 6, 7}[r.Intn(12)]
+				parent, penc, pname = mkParent(kind)
+			}
 			parentTerm := vlib.App("Ok", vlib.Bytes(parent))
 			if r.Intn(25) == 0 {
 				penc = string(vlib.RandBytes(r, 32))
@@ -153,10 +170,27 @@ func main() {
 			if ttl != 0 {
 				expires = t0 + int64(ttl)
 			}
+			defer func() {}()
 			sh.Add(vlib.App("CGen", parentTerm, vlib.Str(penc),
 				vlib.App("Contract", vlib.N(uint64(lic.Contract())), "1", vlib.N(uint64(lic.Signature())), "true"),
 				vlib.Z(t0), vlib.Str(ch), vlib.Str(ty), vlib.Z(int64(ttl)), vlib.Z(expires), vlib.Str(fmt.Sprintf("%d", conn.ConnID)), outcome),
 				map[string]interface{}{"op": "keygen", "parent": pname, "channel": ch, "type": ty, "ttl": ttl}, "keygen/"+pname, true)
+			// the parent key string is presented again afterwards: it must still be the same key
+			if parentTerm != "(Err KCorrupt)" {
+				for _, pr := range []struct {
+					ch   string
+					perm uint8
+				}{{"a/", security.AllowExtend}, {"a/", security.AllowRead}, {"a/1001/", security.AllowRead}, {"a/b/", security.AllowExtend}, {"x/y/", security.AllowWrite}} {
+					text := penc + "/" + pr.ch
+					pch := security.ParseChannel([]byte(text))
+					ok2 := false
+					vlib.Catch(func() { _, _, ok2 = svc.Authorize(pch, pr.perm) })
+					sh.Add(vlib.App("CProbe", parentTerm, vlib.Str(penc),
+						vlib.App("Contract", vlib.N(uint64(lic.Contract())), "1", vlib.N(uint64(lic.Signature())), "true"),
+						vlib.Z(t0), vlib.Str(text), vlib.N(uint64(pr.perm)), vlib.Bool(ok2)),
+						map[string]interface{}{"op": "authorize parent again", "parent": pname, "channel": pr.ch, "perm": pr.perm}, "probe/"+pname, true)
+				}
+			}
 		}
 		svc.Close()
 	}
